@@ -878,6 +878,41 @@ func main() {
 		fmt.Fprintf(&out, "Definition skip_divisor : Z := %s%%Z.\n", evalConst(div.Y, nil).ExactString())
 	}
 
+	// is the "last update finished" stamp a field of the checker (per instance) or a package-level variable?
+	{
+		perInstance := false
+		ast.Inspect(findFunc(ck, "updateWasRecentlyFinished").Body, func(n ast.Node) bool {
+			if se, ok := n.(*ast.SelectorExpr); ok && se.Sel.Name == "lastCrlUpdateFinishTime" {
+				if id, ok := se.X.(*ast.Ident); ok && id.Name == "c" {
+					perInstance = true
+				}
+			}
+			return true
+		})
+		global := false
+		for _, d := range ck.Decls {
+			if gd, ok := d.(*ast.GenDecl); ok && gd.Tok == token.VAR {
+				for _, sp := range gd.Specs {
+					for _, n := range sp.(*ast.ValueSpec).Names {
+						if n.Name == "lastCrlUpdateFinishTime" {
+							global = true
+						}
+					}
+				}
+			}
+		}
+		fmt.Fprintf(&out, "Definition refresh_stamp_per_instance : bool := %v.\n", perInstance && !global)
+		// Cleanup closes the stop channel of the ticker goroutine
+		closes := false
+		ast.Inspect(findFunc(ck, "Cleanup").Body, func(n ast.Node) bool {
+			if ce, ok := n.(*ast.CallExpr); ok && selName(ce.Fun) == "close" && len(ce.Args) == 1 && selName(ce.Args[0]) == "crlUpdateStop" {
+				closes = true
+			}
+			return true
+		})
+		fmt.Fprintf(&out, "Definition cleanup_closes_stop_channel : bool := %v.\n", closes)
+	}
+
 	pr := parseFile("core/pemreader/pemreader.go")
 	fmt.Fprintf(&out, "Definition pem_max_line_length : nat := %s.\n", evalConst(findConst(pr, "pemMaxLineLength"), nil).ExactString())
 	{
